@@ -651,7 +651,37 @@ def classify_and_report(prop: str, tier: str, base_seed: int, agg: dict, quiet=F
             json.dump(small, f, indent=1, default=_jdefault)
         rc, txt = replay_in_fresh_process(prop, path)
         if rc != EXIT_VIOLATION:
-            agg["harness"].append({"error": f"minimised replay {path} did not reproduce in a fresh process (rc={rc}): {txt[-400:]}"})
+            # The shrinker replays candidates in THIS process; if the system under test keeps state between calls, a candidate
+            # may have "failed" only because of what earlier candidates left behind. Fall back to the run as it was generated.
+            full = dict(trace)
+            full.update({k_: small[k_] for k_ in ("expected", "property", "tier", "verif_seed", "run_index", "run_seed", "scoda_tree")})
+            full["shrink_replays"] = 0
+            full["original_events"] = len(trace.get("events", []))
+            full["not_minimised"] = "the minimised trace reproduced only in the process that had executed the shrinker's other candidates"
+            with open(path, "w") as f:
+                json.dump(full, f, indent=1, default=_jdefault)
+            rc, txt = replay_in_fresh_process(prop, path)
+            agg["stats"]["probe/minimised_trace_depended_on_process_state"] += 1
+        if rc != EXIT_VIOLATION:
+            # not even the run as generated stands on its own in a fresh process: replay the worker's history instead
+            try:
+                os.remove(path)
+            except OSError:
+                pass
+            hist = None
+            try:
+                hist = history_replay_for(prop, tier, base_seed, v, worker_log=agg.get("worker_log"))
+            except BaseException as e:
+                agg["harness"].append({"error": f"history replay of run {v['index']} crashed: {e!r}"})
+            if hist is None:
+                agg["harness"].append({"error": f"replay of run {v['index']} did not reproduce in a fresh process (rc={rc}), neither "
+                                                f"alone nor after the history of its worker process: {txt[-300:]}"})
+                continue
+            out_lines.append(f"VIOLATION property={prop} replay={hist[0]}")
+            out_lines.append(f"  class={cls} count_in_batch={item['count']} needs_the_{hist[1] - 1}_runs_before_it_in_the_same_process "
+                             f"detail={viol.detail[:300]}")
+            replays.append(hist[0])
+            exit_code = EXIT_VIOLATION
             continue
         out_lines.append(f"VIOLATION property={prop} replay={path}")
         out_lines.append(f"  class={cls} count_in_batch={item['count']} detail={viol.detail[:300]}")
